@@ -132,7 +132,8 @@ MUTANTS = {
         m("base-options-hashed", T, "        if self._task_options_override:\n            task_options_hash = [get_type_registry().get_hash(self._task_options_override)]", "        if self._task_options_override:\n            task_options_hash = [get_type_registry().get_hash({**self._task_options_base, **self._task_options_override})]", "C17.1"),
         m("includes-unsorted", T, "            hash_includes_hash = sorted(map(get_type_registry().get_hash, self._hash_includes))", "            hash_includes_hash = list(map(get_type_registry().get_hash, self._hash_includes))", "C17.1"),
         m("wrapper-forgets-inner", T, "                hash_includes=wrapper_hash_includes + wrapped_hash_data,", "                hash_includes=wrapper_hash_includes,", "C17.4"),
-        m("async-def-not-trimmed", U, "        if re.match(r\"^ *(async +)?def \", line):", "        if re.match(r\"^ *def \", line):", "C17.5"),
+        m("async-def-not-trimmed", U, '        if re.match(r"^[ \\t]*(async[ \\t]+)?def[ \\t]", line):', '        if re.match(r"^[ \\t]*def[ \\t]", line):', "C17.5"),
+        m("tab-indent-not-trimmed", U, '        if re.match(r"^[ \\t]*(async[ \\t]+)?def[ \\t]", line):', '        if re.match(r"^ *(async +)?def ", line):', "C17.5"),
         m("partial-ignores-args", T, "                hash_arguments(get_type_registry(), self.args, self.kwargs),", "                hash_arguments(get_type_registry(), (), {}),", "C17.4"),
         m("setter-without-rehash", T, "    def is_async(self) -> bool:", "    def set_version(self, version):\n        self.version = version\n\n    def is_async(self) -> bool:", "C17.3"),
     ],
